@@ -2,35 +2,28 @@ package main
 
 import (
 	"fmt"
-	"strings"
 
 	"github.com/ajitpratap0/GoSQLX/pkg/gosqlx"
-	"verif/internal/astdump"
 )
 
 func main() {
 	for _, s := range []string{
-		"ALTER TABLE t ADD COLUMN c INT",
-		"ALTER TABLE t ADD c INT",
-		"ALTER TABLE s.t ADD COLUMN IF NOT EXISTS \"c d\" VARCHAR(10) NOT NULL DEFAULT 'x'",
-		"ALTER TABLE t DROP COLUMN c",
-		"ALTER TABLE t DROP COLUMN IF EXISTS c CASCADE",
-		"ALTER TABLE t DROP c",
-		"ALTER TABLE t RENAME TO u",
-		"ALTER TABLE t RENAME COLUMN a TO b",
-		"ALTER TABLE t ADD CONSTRAINT uq UNIQUE (a, b)",
-		"ALTER TABLE t DROP CONSTRAINT uq",
-		"ALTER TABLE t ALTER COLUMN a SET NOT NULL",
-		"ALTER TABLE t ALTER COLUMN a SET DEFAULT 1",
-		"ALTER TABLE t ALTER COLUMN a TYPE BIGINT",
-		"ALTER TABLE t MODIFY COLUMN a BIGINT",
+		"MERGE INTO t1 a USING t2 b ON a.id = b.id WHEN MATCHED THEN UPDATE SET x = lower(b.y) WHEN NOT MATCHED THEN INSERT (id) VALUES (b.id)",
+		"MERGE INTO t1 USING (SELECT c FROM t3) s ON t1.c = s.c WHEN MATCHED THEN DELETE",
+		"CREATE VIEW v AS SELECT a, upper(b) FROM t WHERE c > 1",
+		"CREATE TABLE t (a INT CHECK (a > abs(b)), b INT REFERENCES o (id))",
+		"CREATE INDEX ix ON t (a) WHERE b > 0",
+		"DROP TABLE t1, s.t2",
+		"TRUNCATE TABLE t1",
+		"INSERT INTO t1 (a) SELECT b FROM t2",
+		"UPDATE t1 SET a = (SELECT max(b) FROM t2) WHERE c IN (SELECT d FROM t3)",
+		"DELETE FROM t1 WHERE EXISTS (SELECT 1 FROM t2 WHERE t2.a = t1.a)",
 	} {
 		t, err := gosqlx.Parse(s)
 		if err != nil {
-			e := strings.Split(err.Error(), "\n")[0]
-			fmt.Printf("REJECT %-70s %s\n", s, e[strings.Index(e, "column 0:")+9:])
+			fmt.Println("ERR", s)
 			continue
 		}
-		fmt.Printf("ok     %-70s %s\n        SQL=%q\n", s, astdump.Dump(t.Statements), t.SQL())
+		fmt.Printf("%s\n   tables=%v columns=%v functions=%v\n", s, gosqlx.ExtractTables(t), gosqlx.ExtractColumns(t), gosqlx.ExtractFunctions(t))
 	}
 }
